@@ -15,6 +15,8 @@ model: lengths only); for `raw` it is what the body (or the zstd encoder) wrote 
 the logical bytes.  `evs` = `w<len>`/`f` list, `c<k>` (pieces of k), or `-`.  `end` = ok|err|vanish.
 `script` = `N` (next until terminal) | `n` | `c` (cancel, request) | `k` (cancel, notify).
 `aux` is the harness's replay recipe (ignored here).
+`duo <idx> <srv> <kind> <chunk> <depth> <streamA> <evsA> <endA> <streamB> <evsB> <endB> <script> <auxA> <auxB>`:
+two streams open at once (uncompressed); script `a|b` (one next), `A|B` (drain), `x|y` (cancel).
 -/
 namespace Repe.Driver.Svs
 open Repe Repe.Driver Repe.Svs
@@ -175,12 +177,50 @@ def hl (idx client puller kind comp chunk stream evs end_ : String) : String :=
           else idx ++ " ok"
   | _, _, _, _ => idx ++ " bad-op"
 
+/-- two streams open at once on one server; `a`/`b` = one `next`, `A`/`B` = drain, `x`/`y` = cancel -/
+def runDuo (F : Facts) (ka kb : Bool) (ida idb fuel : Nat) : List String → Server → List String → Option (List String)
+  | [], _, acc => some acc.reverse
+  | t :: ts, sv, acc =>
+    let one (id : Nat) (known : Bool) :=
+      let (sv', r) := sv.next F id
+      runDuo F ka kb ida idb fuel ts sv' (showResp known r :: acc)
+    let all (id : Nat) (known : Bool) :=
+      let (sv', rs) := drainNext F id fuel sv []
+      runDuo F ka kb ida idb fuel ts sv' (("[" ++ joinSp (rs.map (showResp known)) ++ "]") :: acc)
+    match t with
+    | "a" => one ida ka
+    | "b" => one idb kb
+    | "A" => all ida ka
+    | "B" => all idb kb
+    | "x" => runDuo F ka kb ida idb fuel ts (sv.cancel ida) ("ack" :: acc)
+    | "y" => runDuo F ka kb ida idb fuel ts (sv.cancel idb) ("ack" :: acc)
+    | _ => none
+
+def duo (idx kind chunk sa ea enda sb eb endb script : String) : String :=
+  let F := Gen.svsFacts
+  match parseStream sa, parseEnd enda, parseStream sb, parseEnd endb, formatOf kind with
+  | some (da, ka), some xa, some (db, kb), some xb, some fmt =>
+    match parseEvs ea da, parseEvs eb db with
+    | some la, some lb =>
+      match produce F (natOf chunk) la xa, produce F (natOf chunk) lb xb with
+      | some ma, some mb =>
+        let (sv1, ida) := ({} : Server).open ma
+        let (sv2, idb) := sv1.open mb
+        match runDuo F ka kb ida idb (ma.length + mb.length + 2) (script.splitOn ",") sv2 [] with
+        | none => idx ++ " bad-op"
+        | some out => joinSp ([idx, "open", toString fmt, toString fmt, if ida != idb then "distinct" else "same"] ++ out)
+      | _, _ => idx ++ " diverges"
+    | _, _ => idx ++ " bad-op"
+  | _, _, _, _, _ => idx ++ " bad-op"
+
 def step (st : Unit) (ws : List String) : Unit × String :=
   match ws with
   | ["raw", idx, _srv, kind, comp, chunk, depth, speed, stream, evs, end_, script, _aux] =>
     (st, raw idx kind comp chunk depth speed stream evs end_ script)
   | ["hl", idx, _srv, client, puller, kind, comp, chunk, _depth, stream, evs, end_, _aux] =>
     (st, hl idx client puller kind comp chunk stream evs end_)
+  | ["duo", idx, _srv, kind, chunk, _depth, sa, ea, enda, sb, eb, endb, script, _auxa, _auxb] =>
+    (st, duo idx kind chunk sa ea enda sb eb endb script)
   | _ :: idx :: _ => (st, idx ++ " bad-op")
   | _ => (st, "bad-op")
 
